@@ -117,14 +117,24 @@ package soymsg
 //@   props C10 C08 C09
 //@   nosafety
 //@   pure
+//@   at call soymsg.toUpperUnderscore#0 assert[a-global-by-its-name;C10] same(arg0, unbox(expr, *ast.GlobalNode).Name)
+//@   at call soymsg.toUpperUnderscore#1 assert[a-plain-variable-by-its-name;C10] len(unbox(expr, *ast.DataRefNode).Access) == 0 && same(arg0, unbox(expr, *ast.DataRefNode).Key)
+//@   at call soymsg.toUpperUnderscore#2 assert[a-data-reference-by-its-last-key;C10] typeis(unbox(expr, *ast.DataRefNode).Access[len(unbox(expr, *ast.DataRefNode).Access)-1], *ast.DataRefKeyNode) && same(arg0, unbox(unbox(expr, *ast.DataRefNode).Access[len(unbox(expr, *ast.DataRefNode).Access)-1], *ast.DataRefKeyNode).Key)
 //@ func genBasePlaceholderNameFromHtml
 //@   props C10 C08 C09
 //@   nosafety
 //@   pure
+//@   at call soymsg.tagName#0 assert[name-of-this-tag's-text;C10] sameslice(arg0, node.Text)
+// the pretty-name table (a -> link, br -> break, ...) has lower-case keys and
+// HTML tag names are case-insensitive: the tag name is handed out lower-cased,
+// so <A>, <a> and <Br/> get the names official Soy gives them.
 //@ func tagName
 //@   props C10 C08 C09
 //@   nosafety
 //@   pure
+//@   ensures[tag-name-is-lower-case;C10] forall(i, 0, len(name), !(65 <= name[i] && name[i] <= 90))
+//@   loop 0
+//@     noterm
 //@ func isAlphaNumeric
 //@   props C10
 //@   pure
